@@ -619,7 +619,8 @@ def verifyProof (check : Bool) (hashOf : CNode → Hash) (r : Store) : Nat → H
 
   `TrieDatabase.nodes` (blob + the child references recorded by `Reference`) in front of the
   key-value store (BeansDB, `ItemFlagTrie`).  NOT modelled: `Parents` counters and `Dereference`
-  (garbage collection) — no caller in /repo outside tests —, preimages, sizes, locks, batching. -/
+  (garbage collection) — no caller in /repo outside tests —, preimages, sizes.  Batching and the lock
+  only as far as write faults are concerned (`Db.flush` below). -/
 
 structure MemNode where
   blob : CNode
@@ -690,5 +691,92 @@ def Db.commit (db : Db) (root : Hash) : Res Db :=
 
 /-- a new `TrieDatabase` over the same key-value store -/
 def Db.fresh (db : Db) : Db := { mem := [], disk := db.disk }
+
+/-! ### write faults of `TrieDatabase.Commit` (trie_database.go:260-344)
+
+  `Commit(root)`: `db.lock.RLock()`; every preimage is `Put` into a batch (`batch.Commit()` + `Reset`
+  whenever the batch holds more than `IdealBatchSize` bytes); `db.commit(root, batch)` walks the pool
+  nodes reachable from `root` through the recorded references, children first, `Put`s each blob
+  (`batch.Commit()` + `Reset` at `IdealBatchSize`); the final `batch.Commit()`; `db.lock.RUnlock()`;
+  and only THEN, under the write lock, `db.uncache(root)` drops the written nodes from the pool and the
+  preimage table is cleared ("the two-phase commit is to ensure consistent data availability while
+  moving from memory to disk").  Every `batch.Commit()` may return an error (full disk, I/O error): the
+  call logs, releases the read lock and returns the error; nothing is uncached.
+
+  The fault is an INPUT of the model (`Fault`), so is what had reached the key-value store in earlier,
+  successful batches of the same call (`wrote`; batch boundaries depend on blob sizes and, through
+  `range node.Children`, on Go's map iteration order — the theorems of `LemoProofs.C17Fault` hold for
+  every `wrote`).  Preimages themselves are not modelled (they live under the `secure-key-` prefix,
+  43-byte keys, disjoint from the 32-byte node keys): whether the preimage loop performs an
+  intermediate write (pending preimages > `IdealBatchSize`) is part of the input (`Fault.preimage`).
+  The lock is modelled as the number of read locks the call still holds when it returns.
+  A pool with a reference cycle is reported as `overflow` whatever the fault (in Go the fault may hit
+  before the stack is exhausted; no cycle was ever observed). -/
+
+/-- where a `batch.Commit()` of one `TrieDatabase.Commit` returns an error; `wrote` = the visited hashes
+    whose `Put` had reached the key-value store in earlier batches of this call (`[]`: one batch) -/
+inductive Fault where
+  | preimage                      -- the intermediate write of the preimage loop (line 278)
+  | node (wrote : List Hash)      -- an intermediate write inside `commit` (line 338)
+  | final (wrote : List Hash)     -- the final write (line 292)
+
+/-- the hashes a fault reports as written before it (`none`: it hit before any node was batched) -/
+def Fault.wrote? : Fault → Option (List Hash)
+  | .preimage => none
+  | .node w => some w
+  | .final w => some w
+
+/-- which code.  `uncacheAfterWrite = true`: the code as it is (pool nodes are dropped by `uncache` AFTER
+    the write succeeded); `false`: the variant that deletes each node from `db.nodes` right after
+    `batch.Put` (refuted in `LemoProofs.C17Fault`; modelled exactly for one-batch flushes).
+    `preimageUnlocks = true`: the code since /repo 228c7d3; `false`: the code before it (`return err`
+    without `db.lock.RUnlock()` when the intermediate write of the preimage loop fails). -/
+structure FlushCode where
+  uncacheAfterWrite : Bool := true
+  preimageUnlocks : Bool := true
+
+/-- what one call of `TrieDatabase.Commit` leaves behind: the database, whether the call returned the
+    write error, and the read locks on `db.lock` it still holds (0 = released) -/
+structure FlushOut where
+  db : Db
+  err : Bool
+  rlocks : Nat
+
+/-- the pool part of `TrieDatabase.Commit(root)`.  `wrote = none`: every write succeeded (this is
+    `Db.commit`); `wrote = some w`: a write failed after the visited hashes in `w` had been written —
+    the pool is left as it is (`uncacheAfterWrite`) -/
+def Db.flushWrite (uncacheAfterWrite : Bool) (db : Db) (root : Hash) (wrote : Option (List Hash)) : Res Db :=
+  match reach db.mem (db.mem.length + 1) root with
+  | none => .overflow
+  | some hs =>
+    let puts := fun (l : List Hash) => l.filterMap (fun h => (lookupH db.mem h).map (fun m => (h, m.blob)))
+    let kept := db.mem.filter (fun e => e.1 ∉ hs)
+    match wrote with
+    | none => .ok { mem := kept, disk := (puts hs).reverse ++ db.disk }
+    | some w =>
+      .ok { mem := if uncacheAfterWrite then db.mem else kept,
+            disk := (puts (hs.filter (fun h => h ∈ w))).reverse ++ db.disk }
+
+/-- `TrieDatabase.Commit(root)` with an optional write fault -/
+def Db.flush (c : FlushCode) (db : Db) (root : Hash) : Option Fault → Res FlushOut
+  | some .preimage => .ok ⟨db, true, if c.preimageUnlocks then 0 else 1⟩
+  | some (.node w) =>
+    match db.flushWrite c.uncacheAfterWrite root (some w) with
+    | .ok d => .ok ⟨d, true, 0⟩
+    | .missing h => .missing h
+    | .panic => .panic
+    | .overflow => .overflow
+  | some (.final w) =>
+    match db.flushWrite c.uncacheAfterWrite root (some w) with
+    | .ok d => .ok ⟨d, true, 0⟩
+    | .missing h => .missing h
+    | .panic => .panic
+    | .overflow => .overflow
+  | none =>
+    match db.flushWrite c.uncacheAfterWrite root none with
+    | .ok d => .ok ⟨d, false, 0⟩
+    | .missing h => .missing h
+    | .panic => .panic
+    | .overflow => .overflow
 
 end LemoModel.MptStore
